@@ -336,6 +336,20 @@ def _upgrade_parameters_with_warning(parameters, stacklevel=1):
         ]
 
 
+def _upgrade_annotations(sig, function):
+    """Returns ``sig`` with its annotations upgraded as annotations written
+    for ``function`` (in its module, under its ``__future__`` flags)"""
+    return sig.replace(
+        parameters=[
+            param.replace(
+                function=function,
+                upgraded_annotation=UpgradedAnnotation.upgrade(
+                    param.annotation, function, param.name))
+            for param in sig.parameters.values()],
+        upgraded_return_annotation=UpgradedAnnotation.upgrade(
+            sig.return_annotation, function, 'return'))
+
+
 def default_sources(sig, obj):
     srcs = dict((pname, [obj]) for pname in sig.parameters)
     srcs['+depths'] = {obj: 0}
